@@ -13,7 +13,7 @@ Partial overlaps between a read and a bound cell of another width/offset belong 
 import sys
 from hypothesis import strategies as st
 from vlib import runner, irsem, exprgen
-from vlib.exprgen import build, sshow, swidth, sids, paths, get_at, set_at, to_script
+from vlib.exprgen import build, sshow, swidth, sids, paths, get_at, set_at, to_script, unify_rotate_counts
 from checks.c15_struct import substitute, exc_sig
 
 MEM_LIMIT = 6 << 30       # bytes of address space for this check's processes (see vlib/main.py)
@@ -108,6 +108,41 @@ def cases(draw):
     return {"e": e, "bind": bind, "cells": cells}
 
 
+@st.composite
+def partial_write_cases(draw):
+    """the shape a sub-register write leaves in a machine state: a Compose of constants / constant-bound identifiers with ONE
+    conditional on a free flag among them, at any slot (setcc into al / ah / the middle of a register)"""
+    w = draw(st.sampled_from([16, 32, 64]))
+    parts, pos = [], 0
+    while pos < w:
+        pw = draw(st.sampled_from([x for x in (8, 16, 32) if pos + x <= w]))
+        parts.append((pos, pw))
+        pos += pw
+    k = draw(st.integers(0, len(parts) - 1))
+    import itertools
+    names = ("q%d" % i for i in itertools.count())
+    bind = {}
+
+    def leaf(pw):
+        if draw(st.booleans()):
+            return ["int", pw, draw(exprgen.value(pw))]
+        n = "%s_%d" % (next(names), pw)
+        bind[n] = ["int", pw, draw(exprgen.value(pw))]
+        return ["id", n, pw]
+    slots = []
+    for i, (a, pw) in enumerate(parts):
+        if i == k:
+            slots.append([["cond", ["id", "p1", 1], leaf(pw), leaf(pw)], a, a + pw])
+        else:
+            slots.append([leaf(pw), a, a + pw])
+    e = ["compose", slots]
+    if draw(st.integers(0, 2)) == 0:
+        e = ["op", draw(st.sampled_from(["^", "+", "&"])), [e, draw(exprgen.const(w))]]
+    if draw(st.integers(0, 3)) == 0:
+        bind["p1"] = ["id", "f1", 1]
+    return {"e": e, "bind": bind, "cells": []}
+
+
 CORE_OPS = set(["+", "*", "^", "&", "|", "-", "<<", ">>", "a>>", "<<<", ">>>", "==", "parity", "!", "<"])
 
 
@@ -178,8 +213,14 @@ def oracle(case, info=None):
         op = ""
         if type(ex).__name__ == "KeyError":
             op = str(ex.args[0]) if ex.args else ""
-        elif type(ex).__name__ == "ValueError" and (mixed_rotate_chain(e_s) or mixed_rotate_chain(substitute(e_s, [[["id", n, ids[n]], b] for n, b in bind.items()]))) or type(ex).__name__ == "ValueError" and mixed_rotate_chain(substitute(e_s, [[m, b] for m, b in cells] + [[["id", n, ids[n]], b] for n, b in bind.items()])):
-            op = "mixed-width rotate chain"
+        elif type(ex).__name__ == "ValueError" and not case.get("_unified"):
+            # attribution by intervention: does the failure disappear when every rotate count has the width of its operand?
+            c2 = {"e": unify_rotate_counts(e_s), "bind": dict((n, unify_rotate_counts(b)) for n, b in bind.items()),
+                  "cells": [[unify_rotate_counts(m), unify_rotate_counts(b)] for m, b in cells], "_unified": True}
+            if c2["e"] != e_s or c2["bind"] != bind or c2["cells"] != cells:
+                r2 = oracle(c2)
+                if not (isinstance(r2, tuple) and r2[0][:2] == ("eval", "raise")):
+                    op = "mixed-width rotate chain"
         return (sig + (op,), "%s: %s evaluating %s with %s" % (type(ex).__name__, ex, sshow(e_s), show_state(case)))
     try:
         rw = irsem.width(r)
@@ -345,7 +386,7 @@ def w_run(run, st_, k, n):
             st_.nt((sshow(e), repr(sorted(case["bind"])), len(case["cells"])))
             st_.sample({"expr": sshow(e), "state": show_state(case)})
         return r
-    runner.hyp_drive(run, st_, cases(), orc, n, run.seed * 1000 + k)
+    runner.hyp_drive(run, st_, st.one_of(cases(), cases(), cases(), cases(), cases(), cases(), cases(), partial_write_cases()), orc, n, run.seed * 1000 + k)
 
 
 def main(run):
